@@ -259,7 +259,7 @@ func classifyCrash(all string, err error) (viol, string) {
 		harnessFrame := false
 		libFn := ""
 		for _, f := range funcs {
-			if strings.HasPrefix(f, "verif/") && f != "verif/sim.(*Conn).Read" && f != "verif/sim.(*Conn).Write" && f != "verif/sim.(*Kernel).spawned" {
+			if strings.HasPrefix(f, "verif/") && f != "verif/sim.(*Conn).Read" && f != "verif/sim.(*Conn).Write" && f != "verif/sim.(*Kernel).spawned" && !strings.Contains(f, "cloudRoundTripper") {
 				harnessFrame = true
 			}
 			if libFn == "" && !strings.HasPrefix(f, "panic") && !strings.HasPrefix(f, "runtime.") && !strings.HasPrefix(f, "verif/") {
@@ -275,7 +275,8 @@ func classifyCrash(all string, err error) (viol, string) {
 }
 
 // classifyRaces turns race-detector reports into violations. A report counts
-// only if no stack has a harness frame and at least one has a repository frame.
+// only if no access stack has a harness frame nearer to the access than its first
+// repository frame, and at least one stack has a repository frame.
 func classifyRaces(stderr string) ([]viol, string) {
 	var out []viol
 	trouble := ""
@@ -300,10 +301,16 @@ func classifyRaces(stderr string) ([]viol, string) {
 				// SimNet's Read/Write stand where the kernel's socket layer would: the
 				// buffer they touch belongs to the caller, so they count as library frames
 				// ... and the bottom frame of every program's main goroutine is the kernel's spawner
-				if f == "verif/sim.(*Conn).Read" || f == "verif/sim.(*Conn).Write" || f == "verif/sim.(*Kernel).spawned" {
+				// ... and the credential-adding round tripper is a pass-through between two
+				// library layers
+				if f == "verif/sim.(*Conn).Read" || f == "verif/sim.(*Conn).Write" || f == "verif/sim.(*Kernel).spawned" || strings.Contains(f, "cloudRoundTripper") {
 					continue
 				}
-				if strings.HasPrefix(f, "verif/") {
+				// a harness frame counts only when it is nearer to the access than any
+				// repository frame: a harness peer that calls into the repository's
+				// library API (the bridge's net.Conn) is merely the caller of the
+				// repository function in which the access happens
+				if strings.HasPrefix(f, "verif/") && top == "" {
 					harness = true
 				}
 				if top == "" && strings.HasPrefix(f, repoPkg) {
